@@ -2,6 +2,7 @@ import Driver.Util
 import Driver.Quote
 import Driver.Auth
 import Driver.Rights
+import Driver.Trace
 open Lean
 
 def dispatch (j : Json) : Json :=
@@ -9,6 +10,7 @@ def dispatch (j : Json) : Json :=
   | "quote" => Driver.handleQuote j
   | "authcache" => Driver.handleAuth j
   | "rights" => Driver.handleRights j
+  | "trace" => Driver.handleTrace j
   | "ping" => Driver.obj [("r", Json.str "pong")]
   | _ => Driver.obj [("error", Json.str "bad-model")]
 
